@@ -241,7 +241,7 @@ void pres_free(pres_t *p)
 /* ------------- data ------------- */
 const char *data_kind_name(int kind)
 {
-    static const char *n[] = { "random", "zero", "ff", "high", "boundary" };
+    static const char *n[] = { "random", "zero", "ff", "high", "boundary", "edge" };
     return (kind >= 0 && kind < DATA_KINDS) ? n[kind] : "?";
 }
 
@@ -261,6 +261,19 @@ void data_fill(uint8_t *buf, uint64_t len, int kind, rng_t *r, int k, uint64_t p
         }
         if (len) buf[len - 1] ^= 0x5a;
         break;
+    case DATA_EDGE: {
+        static const uint8_t pat[] = { 0x00,0x00, 0x01,0x00, 0xfe,0xff, 0x00,0x80, 0xff,0x00, 0x00,0xff, 0xff,0xff, 0x02,0x00, 0xff,0x7f };
+        rng_fill(r, buf, len);
+        for (int i = 0; i < k; i++) {
+            uint64_t b = (uint64_t)i * payload, e = b + payload < len ? b + payload : len;
+            if (b >= len) break;
+            uint64_t o = b;
+            int lead = 1 + (i % 3);                               /* 1..3 leading ffff words */
+            for (int q = 0; q < 2 * lead && o < e; q++) buf[o++] = 0xff;
+            for (size_t q = 0; q < sizeof pat && o < e; q++) buf[o++] = pat[(q + 2 * (size_t)i) % sizeof pat];
+            if (e - b >= 4) { buf[e - 1] = 0xff; buf[e - 2] = 0xff; }   /* trailing ffff word as well */
+        }
+    } break;
     }
 }
 
@@ -390,7 +403,7 @@ int payload_sweep_lengths(const cfg_t *c, uint64_t *lens, int *kinds, int max)
 {
     uint64_t W = (uint64_t)ref_word_bytes(c->be), k = (uint64_t)c->k;
     int n = 0;
-    for (uint64_t P = W; P <= 32 + W && n < max; P += W) { lens[n] = k * P - (n % 3 == 1 && k * P > 1 ? 1 : 0); kinds[n] = n % 4 == 3 ? DATA_HIGH : DATA_RANDOM; n++; }
+    for (uint64_t P = W; P <= 32 + W && n < max; P += W) { lens[n] = k * P - (n % 3 == 1 && k * P > 1 ? 1 : 0); kinds[n] = n % 4 == 3 ? DATA_HIGH : n % 4 == 1 ? DATA_EDGE : DATA_RANDOM; n++; }
     static const uint64_t around[] = { 64, 128, 1024 };
     for (int a = 0; a < 3; a++) for (int d = -1; d <= 1 && n < max; d++) {
         uint64_t P = around[a] + (uint64_t)((int64_t)d * (int64_t)W);
